@@ -17,6 +17,10 @@ Two parts (DESIGN.md 2.6):
     TEXT VERSUS BYTES (TEXT_RULE): payloads whose names are not stable under Unicode normalisation / glob expansion (NAME_SHAPES:
     NFD names, equivalent names side by side with different and with identical content, glob metacharacters) and payloads whose
     recorded hash strings are valid UTF-8 with a multi-byte character (aimed_utf8_strings; recipes in harness/data/utf8_digests.json).
+    PATH ARGUMENTS (PATHS_RULE, aimed_paths): look-up layouts whose directory names are suffixes / prefixes of one another or nest an
+    entry named like the torrent, the content path spelled absolute / relative / './x' / 'x/.' / with a trailing separator under several
+    working directories, a relative content argument with the metafile in another folder holding another copy, and (C05) metafiles
+    CREATED through spellings such as '.', '..', 'payload/sub/..'; library, cli.execute and a fresh interpreter with cwd set.
 A `mode` ("C04" | "C05" | "C16") selects which disk states are generated and which observable is judged.
 """
 import os
@@ -1574,6 +1578,10 @@ def e2e(ctx, mode):
         if os.environ.get("VERIF_TIMING"):
             print(f"[timing] aimed_layouts {time.time() - t0:.1f}s", file=sys.stderr)
         t0 = time.time()
+        aimed_paths(ctx, mode, tmp)
+        if os.environ.get("VERIF_TIMING"):
+            print(f"[timing] aimed_paths {time.time() - t0:.1f}s", file=sys.stderr)
+        t0 = time.time()
         e2e_scale(ctx, mode, tmp)
         if os.environ.get("VERIF_TIMING"):
             print(f"[timing] e2e_scale {time.time() - t0:.1f}s", file=sys.stderr)
@@ -2102,6 +2110,419 @@ def aimed_utf8_strings(ctx, mode, tmp):
         shutil.rmtree(sc.base, ignore_errors=True)
 
 
+# ------------------------------------------------- end to end: PATH ARGUMENTS and their spellings
+PATHS_RULE = (
+    "  PATH ARGUMENTS AND THEIR SPELLINGS (aimed_paths; end to end, every mode, judged by the reference verifier on the payload the "
+    "metafile describes AT THE LOCATION THE PROPERTY'S READING GIVES: the given path if its last component is the torrent name, else "
+    "<given>/<name>): (1) LOOK-UP LAYOUTS -- the PARENT directory given as content has a name that ENDS WITH / BEGINS WITH / CONTAINS the "
+    "torrent name (old-album, album-old, my-album-2 holding album; box holding x) but is not equal to it; the payload ROOT given as "
+    "content itself CONTAINS an entry named like the torrent (album/album/ holding a copy of the payload: intact while the outer payload "
+    "is damaged for C04 / C16, damaged while the outer one is intact for C05 / C16; also a plain FILE album/album); both at once; SIBLING "
+    "directories whose names extend the torrent name (album2, old-album next to album) holding such a copy; v1, v2 and hybrid metafiles of "
+    "creators and of the reference encoder, multi-file and single-file payloads; root AND parent, each spelled absolute, absolute with a "
+    "trailing separator, relative to the working directory (the directory holding the given path, or one level higher), relative with a "
+    "trailing separator, './x', 'x/.', 'd/../d/x' (a single file only in the spellings that name a file); through the library (Checker(...) constructed and run under that working directory), "
+    "cli.execute and a fresh interpreter started in that working directory.  (2) WORKING DIRECTORY VERSUS THE METAFILE'S FOLDER -- the "
+    "metafile lies in another folder that holds ANOTHER copy of the payload next to it (pristine when the judged copy is damaged, damaged "
+    "when the judged copy is intact), the content argument is RELATIVE ('album', './album', 'album/', '.', '../work/album', '../work') and "
+    "the run starts in the working directory that holds the judged copy; the metafile argument absolute and relative; fresh interpreter "
+    "with cwd set, cli.execute and the library under os.chdir.  (3, C05) METAFILES CREATED THROUGH PATH SPELLINGS -- `cd payload; create .`, "
+    "`cd payload/sub; create ..`, `cd payload/sub/deep; create ../..`, payload/sub/.., /abs/payload/sub/deep/../.., payload/., ./payload/, "
+    "../payload from inside, plain relative and absolute, a single file as ./p.bin and d/../p.bin, the output file absolute and relative "
+    "(../p.torrent), by all six creator classes and by the command line (`create`, meta versions 1 2 3): the created metafile is rechecked "
+    "against the intact payload through the root AND the parent and must give exactly 100.0 (an exception is a failure).  Replays rebuild "
+    "the layout from the recorded recipe (scope aimed-paths).")
+
+PATH_SPELLINGS = ["absolute", "absolute/", "relative", "relative/", "./relative", "relative/.", "relative through ../"]
+NOT_FOR_A_FILE = ("absolute/", "relative/", "relative/.", "name/")     # spellings that do not name a regular file
+PARENT_SHAPES = {           # how the name of the parent directory relates to the torrent name (never equal: that is finding D33)
+    "ends-with": lambda n: "old-" + n,
+    "ends-with-glued": lambda n: "bo" + n,
+    "begins-with": lambda n: n + "-old",
+    "contains": lambda n: "my-" + n + "-2",
+    "unrelated": lambda n: "store",
+}
+PATH_KINDS = ["ref-v1", "v2-class", "hybrid-asm", "v1", "ref-v2", "ref-hybrid", "hybrid-class", "v2-asm", "v1-align"]
+
+
+class chdir:
+    def __init__(self, d):
+        self.d = d
+
+    def __enter__(self):
+        self.old = os.getcwd()
+        os.chdir(self.d)
+
+    def __exit__(self, *a):
+        os.chdir(self.old)
+
+
+def spell_path(path, spelling, cwd):
+    """the text of a path argument for the absolute `path` as typed by a user whose working directory is `cwd`"""
+    rel = os.path.relpath(path, cwd)
+    if spelling == "absolute":
+        return path
+    if spelling == "absolute/":
+        return path + os.sep
+    if spelling == "relative":
+        return rel
+    if spelling == "relative/":
+        return rel + os.sep
+    if spelling == "./relative":
+        return os.curdir + os.sep + rel
+    if spelling == "relative/.":
+        return rel + os.sep + os.curdir
+    if spelling == "relative through ../":        # <dir>/../<dir>/<x> with <dir> the directory holding the path
+        d = os.path.dirname(path)
+        return os.path.join(os.path.relpath(d, cwd), os.pardir, os.path.basename(d), os.path.basename(path))
+    raise ValueError(spelling)
+
+
+def run_recheck(route, mf, content, cwd, home, hashseed=0):
+    """recheck with the arguments exactly as given, started in the working directory `cwd` -> impl dict as impl_run's"""
+    if route == "library":
+        with chdir(cwd):
+            return impl_run(mf, content)
+    if route == "cli.execute":
+        with chdir(cwd):
+            r = cli_result(mf, content, home)
+    else:
+        p = subprocess.run([core.PY, "-m", "torrentfile", "recheck", mf, content], cwd=cwd, capture_output=True, text=True, timeout=300,
+                           env=core.impl_env({"HOME": home, "PYTHONHASHSEED": str(hashseed)}))
+        m = re.findall(r"<- ([0-9.eE+-]+)% ->", p.stdout)
+        r = float(m[-1]) if p.returncode == 0 and m else f"exit {p.returncode}: {p.stderr.strip()[-200:]}"
+    return {"error": r} if isinstance(r, str) else {"result": r, "results()": r, "trace": []}
+
+
+def paths_payload(base, rec):
+    """the judged payload of a recipe: Scenario in <base>/<parent_name>/ (files f00.. or a single file; content a function of content_seed)"""
+    rng = random.Random(rec["content_seed"])
+    pdir = os.path.join(base, rec["parent_name"])
+    if rec["single"]:
+        return Scenario(pdir, rng, pl=rec["piece_length"], name=rec["name"], tree={(): rng.randbytes(rec["sizes"][0])}, kinds=[rec["metafile"]])
+    if rec.get("deep"):
+        comps = [("a.bin",), ("sub", "b.bin"), ("sub", "deep", "c.bin"), ("sub", "deep", "d.bin")]
+        tree = {c: rng.randbytes(s) for c, s in zip(comps, rec["sizes"])}
+        return Scenario(pdir, rng, pl=rec["piece_length"], name=rec["name"], tree=tree, kinds=[rec["metafile"]])
+    return Scenario(pdir, rng, pl=rec["piece_length"], name=rec["name"], sizes=rec["sizes"], kinds=[rec["metafile"]], never_single=True)
+
+
+def write_copy(sc, root, state):
+    """another copy of sc's payload (files in the given state) at `root`"""
+    for (comps, _), d in zip(sc.files, state):
+        if d is not None:
+            write_file(path_of(root, comps, sc.single), d)
+
+
+def paths_build(base, rec):
+    """
+    lay out the disk of a recipe; returns (sc, metafile path, given content path (absolute), working directory).
+    rec["damage"] is applied to the JUDGED payload, rec["decoy_damage"] (None = no decoy) to the other copies.
+    """
+    sc = paths_payload(base, rec)
+    kind = rec["metafile"]
+    if kind not in sc.metas:
+        return sc, None, None, None
+    mf = sc.metas[kind][0]
+    sc.set_state(apply_desc(sc.files, rec["damage"]))
+    decoy = None if rec.get("decoy_damage") is None else apply_desc(sc.files, rec["decoy_damage"])
+    fam = rec["family"]
+    if fam == "look-up":
+        if decoy is not None:
+            for where in rec["decoys"]:
+                if where == "inside-root":
+                    write_copy(sc, os.path.join(sc.root, sc.name), decoy)
+                elif where == "file-inside-root":
+                    write_file(os.path.join(sc.root, sc.name), sc.files[0][1])
+                else:       # siblings whose names extend the torrent name
+                    write_copy(sc, os.path.join(sc.parent, where.replace("NAME", sc.name)), decoy)
+        given = sc.root if rec["via"] == "root" else sc.parent
+        cwd = os.path.dirname(given) if rec["cwd"] == "holding" else os.path.dirname(os.path.dirname(given))
+    else:       # the metafile's folder (with the other copy) is not the working directory (with the judged copy)
+        store = os.path.join(base, "kept")
+        os.makedirs(store, exist_ok=True)
+        mf2 = os.path.join(store, "m.torrent")
+        shutil.copyfile(mf, mf2)
+        os.remove(mf)
+        mf = mf2
+        if decoy is not None:
+            write_copy(sc, os.path.join(store, sc.name), decoy)
+        given = sc.root if rec["via"] == "root" else sc.parent
+        cwd = sc.parent
+    return sc, mf, given, cwd
+
+
+def paths_args(rec, mf, given, cwd):
+    if rec["family"] == "look-up":
+        return mf, spell_path(given, rec["spelling"], cwd)
+    content = {"name": os.path.basename(given), "./name": os.curdir + os.sep + os.path.basename(given), "name/": os.path.basename(given) + os.sep,
+               ".": os.curdir, "../work/name": os.path.join(os.pardir, os.path.basename(cwd), os.path.basename(given)),
+               "../work": os.path.join(os.pardir, os.path.basename(cwd))}[rec["spelling"]]
+    return (mf if rec["metafile_arg"] == "absolute" else os.path.relpath(mf, cwd)), content
+
+
+def paths_eval(base, rec, home):
+    """-> (sc, entries, origs, impl, ref, guard) of one recipe (None when the metafile could not be made)"""
+    sc, mf, given, cwd = paths_build(base, rec)
+    if mf is None:
+        return sc, None, None, None, None, None
+    kind = rec["metafile"]
+    meta = sc.metas[kind][1]
+    a_mf, a_content = paths_args(rec, mf, given, cwd)
+    impl = run_recheck(rec["route"], a_mf, a_content, cwd, home, rec.get("cli_hashseed", 0))
+    entries, origs = sc.entries(kind)
+    guard = True
+    if view_of(meta) == "v2":
+        g = v2_piece_guard(entries, origs, sc.pl)
+        guard = True if all(g) else g
+    return sc, entries, origs, impl, reference(meta, sc.root), guard
+
+
+def paths_recipes(ctx, mode):
+    """the recipes of the families look-up and working-directory (functions of the tier and of ctx.rng)"""
+    thorough = ctx.tier == "thorough"
+    out = []
+    pl = B
+    multi = [B + 7, 0, 2 * B, 300]
+    dmg = [["flip", 2, B + 1], ["trunc", 3, 100]]
+    dmg1 = [["flip", 0, 5]]
+    if mode == "C04":
+        states = [(dmg, []), (dmg1, [])]
+    elif mode == "C05":
+        states = [([], dmg)]
+    else:
+        states = [([], dmg), (dmg, []), (dmg1, [])]
+    layouts = [       # (label, parent shape, decoys, single)
+        ("parent directory's name ENDS WITH the torrent name", "ends-with", [], False),
+        ("parent directory's name ENDS WITH the torrent name", "ends-with-glued", [], True),
+        ("parent directory's name BEGINS WITH the torrent name", "begins-with", [], False),
+        ("parent directory's name CONTAINS the torrent name", "contains", [], True),
+        ("payload root CONTAINS a directory named like the torrent holding another copy", "unrelated", ["inside-root"], False),
+        ("payload root contains a FILE named like the torrent", "unrelated", ["file-inside-root"], False),
+        ("parent's name ends with the torrent name AND the root contains a directory named like it", "ends-with", ["inside-root"], False),
+        ("SIBLING directories whose names extend the torrent name hold another copy", "unrelated", ["NAME2", "old-NAME", "NAME.d"], False),
+        ("SIBLING directories whose names extend the torrent name hold another copy", "begins-with", ["NAME2", "NAME.bin"], True),
+    ]
+    names = ["album", "x", "a b"]
+    n = 0
+    for li, (label, shape, decoys, single) in enumerate(layouts):
+        name = names[li % len(names)] + (".bin" if single else "")
+        kinds = PATH_KINDS if thorough else [PATH_KINDS[(li * 3 + j) % len(PATH_KINDS)] for j in range(3)]
+        for kind in kinds:
+            seed = ctx.rng.getrandbits(64)
+            for si, (damage, decoy_damage) in enumerate(states):
+                if single:
+                    damage = [d for d in damage if d[1] == 0][:1] or ([["trunc", 0, B]] if damage else [])
+                    decoy_damage = [["flip", 0, 3]] if decoy_damage else []
+                for via in ("parent", "root"):
+                    for pi, spelling in enumerate(PATH_SPELLINGS):
+                        n += 1
+                        if single and via == "root" and spelling in NOT_FOR_A_FILE:
+                            continue
+                        if not thorough and (n + si) % 2 and spelling not in ("relative", "absolute"):
+                            continue
+                        route = "library"
+                        if n % 5 == 0:
+                            route = "cli.execute"
+                        elif n % (23 if thorough else 61) == 0:
+                            route = "cli-subprocess"
+                        out.append({"scope": "aimed-paths", "family": "look-up", "label": label, "parent_name": PARENT_SHAPES[shape](name),
+                                    "name": name, "single": single, "sizes": [2 * B + 9] if single else multi, "piece_length": pl,
+                                    "metafile": kind, "content_seed": seed, "damage": damage, "decoys": decoys,
+                                    "decoy_damage": decoy_damage if decoys else None, "via": via, "spelling": spelling,
+                                    "cwd": "holding" if (n // 7) % 2 == 0 else "one level higher", "route": route})
+    # the working directory is not the metafile's folder
+    wd_spellings = ["name", "./name", "name/", ".", "../work/name", "../work"]
+    for wi, single in enumerate((False, True, False) if not thorough else (False, True, False, True, False, True)):
+        kinds = PATH_KINDS if thorough else [PATH_KINDS[(wi * 3 + 1 + j) % len(PATH_KINDS)] for j in range(3)]
+        for ki, kind in enumerate(kinds):
+            seed = ctx.rng.getrandbits(64)
+            name = names[(wi + ki) % len(names)] + (".bin" if single else "")
+            for si, (damage, decoy_damage) in enumerate(states):
+                if single:
+                    damage = [d for d in damage if d[1] == 0][:1] or ([["trunc", 0, B]] if damage else [])
+                    decoy_damage = [["flip", 0, 3]] if decoy_damage else []
+                for pi, spelling in enumerate(wd_spellings):
+                    n += 1
+                    if single and spelling in NOT_FOR_A_FILE:
+                        continue
+                    via = "parent" if spelling in (".", "../work") else "root"
+                    route = ["cli.execute", "library", "cli.execute"][n % 3]
+                    if (pi + ki + si) % (3 if thorough else 4) == 0:
+                        route = "cli-subprocess"
+                    out.append({"scope": "aimed-paths", "family": "working-directory",
+                                "label": "relative content argument; the metafile's folder holds another copy of the payload",
+                                "parent_name": "work", "name": name, "single": single, "sizes": [2 * B + 9] if single else multi,
+                                "piece_length": pl, "metafile": kind, "content_seed": seed, "damage": damage, "decoy_damage": decoy_damage,
+                                "via": via, "spelling": spelling, "metafile_arg": "absolute" if n % 2 else "relative", "route": route})
+    return out
+
+
+CREATE_SPELLINGS = [        # (label, working directory below the base, content argument; PAYLOAD = the payload's name, ABS = its absolute path)
+    ("cd payload; create .", "PAYLOAD", "."),
+    ("cd payload/sub; create ..", "PAYLOAD/sub", ".."),
+    ("cd payload/sub/deep; create ../..", "PAYLOAD/sub/deep", "../.."),
+    ("create payload/sub/..", "", "PAYLOAD/sub/.."),
+    ("create /abs/payload/sub/deep/../..", "", "ABS/sub/deep/../.."),
+    ("create payload/.", "", "PAYLOAD/."),
+    ("create ./payload/", "", "./PAYLOAD/"),
+    ("cd payload; create ../payload", "PAYLOAD", "../PAYLOAD"),
+    ("create payload", "", "PAYLOAD"),
+    ("create /abs/payload/", "PAYLOAD/sub", "ABS/"),
+]
+CREATE_SPELLINGS_SINGLE = [
+    ("create ./p.bin", "", "./PAYLOAD"),
+    ("create d/../p.bin", "", "d/../PAYLOAD"),
+    ("cd d; create ../p.bin", "d", "../PAYLOAD"),
+    ("create /abs/./p.bin", "d", "DIR/./PAYLOAD"),
+]
+CREATE_ROUTES = ["v1", "v1-align", "v2-class", "v2-asm", "hybrid-class", "hybrid-asm", "cli-1", "cli-2", "cli-3"]
+
+
+def create_recipes(ctx):
+    out = []
+    n = 0
+    for single, spellings in ((False, CREATE_SPELLINGS), (True, CREATE_SPELLINGS_SINGLE)):
+        for pi, (label, cwd, arg) in enumerate(spellings):
+            for route in CREATE_ROUTES:         # (cheap: every creator and the command line for every spelling in both tiers)
+                n += 1
+                out.append({"scope": "aimed-paths", "family": "created-through-spelling", "label": label, "create_cwd": cwd, "create_arg": arg,
+                            "creator": route, "metafile": route, "single": single, "name": ["payload", "x", "a b"][n % 3] + (".bin" if single else ""),
+                            "parent_name": "made", "deep": not single, "sizes": [B + 9] if single else [B + 5, 100, 2 * B, 0],
+                            "piece_length": [B, 2 * B][n % 2], "content_seed": ctx.rng.getrandbits(64), "damage": [],
+                            "outfile": "relative" if n % 2 else "absolute"})
+    return out
+
+
+def create_eval(base, rec, home):
+    """create the metafile through the recorded spelling, then recheck the intact payload through root and parent
+       -> (sc, {"root": answer, "parent": answer, "cli": answer}, info.name recorded, reference (matched, total) or text)"""
+    rec0 = dict(rec, metafile="ref-v1")
+    sc = paths_payload(base, rec0)
+    if rec["single"]:
+        os.makedirs(os.path.join(sc.parent, "d"), exist_ok=True)
+    rep = lambda s: s.replace("PAYLOAD", sc.name).replace("ABS", sc.root).replace("DIR", sc.parent)   # noqa
+    cwd = os.path.normpath(os.path.join(sc.parent, rep(rec["create_cwd"])))
+    arg = rep(rec["create_arg"])
+    out_abs = os.path.join(base, "out", "p.torrent")
+    os.makedirs(os.path.dirname(out_abs), exist_ok=True)
+    out = out_abs if rec["outfile"] == "absolute" else os.path.relpath(out_abs, cwd)
+    route = rec["creator"]
+    try:
+        with chdir(cwd):
+            if route.startswith("cli-"):
+                core.use_repo_in_process()
+                from torrentfile import utils
+                from torrentfile.cli import execute
+                cache = getattr(utils.filelist_total, "cache", None)
+                if cache is not None:
+                    cache.clear()
+                pw = {B: "14", 2 * B: "15"}[rec["piece_length"]]
+                trees.quiet(execute, ["create", arg, "-o", out, "--meta-version", route[-1], "--piece-length", pw])
+            else:
+                trees.create(route, arg, out, rec["piece_length"])
+    except BaseException as e:  # noqa
+        return sc, {"create": f"{type(e).__name__}: {e}"}, None, None
+    if not os.path.exists(out_abs):
+        return sc, {"create": f"no metafile at {out_abs}"}, None, None
+    meta = decode_meta(open(out_abs, "rb").read())
+    try:
+        ref = reference(meta, sc.root)[:2]
+    except Exception as e:  # noqa
+        ref = f"reference verifier: {type(e).__name__}: {e}"
+    ans = {}
+    for via, p in (("root", sc.root), ("parent", sc.parent)):
+        r = impl_run(out_abs, p)
+        ans[via] = r.get("error", r.get("result"))
+    ans["cli"] = cli_result(out_abs, sc.root, home)
+    return sc, ans, meta[b"info"].get(b"name"), ref
+
+
+def aimed_paths(ctx, mode, tmp):
+    """PATHS_RULE"""
+    for n, rec in enumerate(paths_recipes(ctx, mode)):
+        base = os.path.join(tmp, f"ap{n}")
+        if rec["route"] == "cli-subprocess":
+            rec["cli_hashseed"] = (rec["content_seed"] >> 11) % 4294967295 + 1
+        try:
+            sc, entries, origs, impl, ref, guard = paths_eval(base, rec, tmp)
+        except Exception as e:  # noqa
+            ctx.broken.append(f"aimed_paths: {type(e).__name__}: {e} on {rec}")
+            shutil.rmtree(base, ignore_errors=True)
+            continue
+        kind = rec["metafile"]
+        if entries is None:
+            ctx.fail("create-raised", sc.describe(kind, None, rec), "a metafile", sc.errors.get(kind))
+        else:
+            per_file = view_of(sc.metas[kind][1]) == "v2"
+            inp = sc.describe(kind, rec["damage"], rec)
+            where = "paths-" + rec["family"] + ("-v2" if per_file else "-v1")
+            if rec["route"] != "library" and mode == "C16":
+                # the command line prints the number only: the value is judged, not the verdict stream
+                if "error" in impl:
+                    ctx.fail(where + "-recheck-raised", inp, "a percentage", impl["error"])
+                elif guard is True and impl["result"] != ratio(ref[0], ref[1]):
+                    ctx.fail(where + "-percentage-not-the-share", inp, ratio(ref[0], ref[1]), impl["result"],
+                             detail=f"reference matched/total = {ref[0]}/{ref[1]}")
+            else:
+                judge(ctx, mode, where, inp, entries, origs, impl, ref, guard_ok=guard)
+            cl = {rec["label"], "metafile " + kind, "content path = " + ("parent directory" if rec["via"] == "parent" else "payload root"),
+                  "content argument spelled: " + rec["spelling"], "route: " + rec["route"]}
+            if rec["family"] == "look-up":
+                cl.add("working directory: " + rec["cwd"])
+            else:
+                cl.add("metafile argument " + rec["metafile_arg"])
+            if rec["single"]:
+                cl.add("single-file payload")
+            ctx.case(key=("aimed-paths", n), classes=sorted(cl), nontrivial=True)
+        shutil.rmtree(base, ignore_errors=True)
+    if mode != "C05":
+        return
+    for n, rec in enumerate(create_recipes(ctx)):
+        base = os.path.join(tmp, f"cp{n}")
+        try:
+            sc, ans, recorded_name, ref = create_eval(base, rec, tmp)
+        except Exception as e:  # noqa
+            ctx.broken.append(f"aimed_paths (created): {type(e).__name__}: {e} on {rec}")
+            shutil.rmtree(base, ignore_errors=True)
+            continue
+        inp = sc.describe(rec["creator"], [], rec)
+        if "create" in ans:
+            ctx.fail("paths-create-raised", inp, "a metafile", ans["create"])
+        else:
+            for via, a in ans.items():
+                if not (isinstance(a, float) and a == 100):
+                    ctx.fail("paths-created-through-spelling-intact-not-100", dict(inp, content_path=via), 100.0, a,
+                             detail=f"info.name recorded: {recorded_name!r}; the payload is {sc.name!r}; reference verifier on the created "
+                                    f"metafile (matched, total): {ref}")
+        ctx.case(key=("aimed-paths-created", n), nontrivial=True,
+                 classes=["metafile created through a path spelling: " + rec["label"], "creator " + rec["creator"],
+                          "output file argument " + rec["outfile"], "content path = parent directory"] +
+                         (["single-file payload"] if rec["single"] else []))
+        shutil.rmtree(base, ignore_errors=True)
+
+
+def replay_paths(ctx, mode, inp, tmp):
+    """-> (impl, ref) of a recorded aimed-paths input"""
+    base = os.path.join(tmp, "ap")
+    if inp["family"] == "created-through-spelling":
+        sc, ans, recorded_name, ref = create_eval(base, inp, tmp)
+        print("payload:", sc.root, "files:", {"/".join(c): len(x) for c, x in sc.files}, "created by:", inp["creator"], "as:", inp["label"])
+        print("info.name recorded:", recorded_name, " answers:", ans)
+        if "create" in ans:
+            return {"error": ans["create"]}, (0, 0, [])
+        a = ans.get(inp.get("content_path", "root"))
+        bad = [x for x in ans.values() if not (isinstance(x, float) and x == 100)]
+        a = bad[0] if bad else a
+        impl = {"error": a} if isinstance(a, str) else {"result": a, "results()": a, "trace": []}
+        return impl, (ref[0], ref[1], []) if isinstance(ref, tuple) else (0, 0, [])
+    sc, entries, origs, impl, ref, guard = paths_eval(base, inp, tmp)
+    print("payload:", sc.root, "files:", {"/".join(c): len(x) for c, x in sc.files}, "layout:", inp["label"])
+    print("content path:", inp["via"], "spelled", inp["spelling"], "route:", inp["route"], "damage:", inp["damage"],
+          "other copies:", inp.get("decoys", "next to the metafile"), "their damage:", inp.get("decoy_damage"))
+    return impl, ref
+
+
 # ----------------------------------------------------------------------- end to end at SCALE
 SCALE_RULE = (
     "  AT SCALE (end to end only; same judge -- the reference verifier of harness/ref/oracle.py -- as the small cases; nothing of it goes to "
@@ -2518,6 +2939,8 @@ def replay(ctx, mode, data):
                   {"pieces roots": [r for _, _, r in oracle.v2_layout(info)], "piece layers": meta.get(b"piece layers")})
             impl = impl_run(mf, sc.parent if inp.get("content_path") == "parent" else sc.root)
             ref = reference(meta, sc.root)
+        elif inp["scope"] == "aimed-paths":
+            impl, ref = replay_paths(ctx, mode, inp, tmp)
         elif inp["scope"] == "scale":
             print("case at scale / with duplicate content: rebuilt from case_seed (payload) and the recorded damage")
             sc, _, aim, _ = scale_case(os.path.join(tmp, "sc"), inp["case_seed"], inp["scale_family"], inp["scale_index"],
